@@ -360,7 +360,8 @@ Section Scan.
     let k := lk l in
     if lexkind_eqb k LKeyword then
       value_of (cs_sc s) l >>=c fun kw =>
-      if beq kw (kind_keyword KInclude) then process_include s l else process_keyword s l kw
+      (* the directive read before an INCLUDE is placed before the included file is entered *)
+      if beq kw (kind_keyword KInclude) then flush_cur s >>=c fun s0 => process_include s0 l else process_keyword s l kw
     else if lexkind_eqb k LContextExplicitClosing then
       flush_cur s >>=c fun s1 =>
       match close_explicit (S (List.length (cs_frames s1))) (cs_frames s1) (cs_roots s1) with
